@@ -101,6 +101,8 @@ pub fn det_profile(max_nodes: usize) -> forest::ForestProfile {
         .filter(|t| crate::gen::vals::binary_types().contains(t))
         .collect();
     p.ident_text = TextMode::Xml;
+    // the reference encoder of the foreign-file leg takes declared types only
+    p.narrow_numbers = false;
     p
 }
 
